@@ -26,7 +26,10 @@ JInit == TraceInit /\ silentOK = TRUE /\ chk = 0 /\ late = {} /\ TLCSet(1, 1)
 (* worked in between, so the contents are matched by a separate step (JVerify) that a silent cycle may precede.          *)
 JOp ==
   /\ chk = 0 /\ TraceOpNoState /\ chk' = l /\ silentOK' = TRUE
-  /\ late' = IF Ev.op.name = "Write" /\ Holds(Ev.op.k) /\ Deletable(slot[Hash[Ev.op.k]]) THEN late \cup {Ev.op.k} ELSE late
+  /\ late' = IF Ev.op.name = "Write" /\ Holds(Ev.op.k) /\ Deletable(slot[Hash[Ev.op.k]]) THEN late \cup {Ev.op.k}
+              ELSE IF Ev.op.name = "ExpireAll"          \* renews the expiry of every entry in place, long-expired ones too
+                THEN late \cup {slot[h].k : h \in {x \in Slots : Deletable(slot[x])}}
+              ELSE late
 
 (* At a recorded Cleanup line the cache_items gauge (reported by its own goroutine, read after two reports) equals the   *)
 (* number of entries.                                                                                                    *)
@@ -52,7 +55,8 @@ JSilent ==
 
 (* Named deviation of SyncMap (known finding KF-C08-1 / KF-C11-1, defect D14): its janitor checks an entry and then      *)
 (* deletes BY KEY, so the entry a Write stored over a long-expired one while the cycle was running can be removed,       *)
-(* whatever its expiry.  Enabled only when a rejected trace is re-judged for classification.                            *)
+(* whatever its expiry; likewise an entry whose expiry an ExpireAll renewed in place.  Enabled only when a rejected      *)
+(* trace is re-judged for classification.                                                                               *)
 JLate ==
   /\ DevJ /\ l <= Len(Trace) + 1
   /\ \E k \in late :
